@@ -15,11 +15,11 @@ What the code does today is modelled, not what it should do:
 * The final check (`checkData`) compares the byte count only if a non-zero size was announced
   and the MD5 only if a hash was announced.
 * `QXmppTransferIncomingJob::writeData` calls `QIODevice::write` ONCE per block and does not retry.  A write
-  that fails or takes only part of the block ends the job with `FileAccessError` (repo commit 705738b; before, the
+  that fails or takes only part of the block ends the job with `FileAccessError` (repo commit 675e9c1; before, the
   short count was accepted and the whole block hashed).  The byte counter and the running MD5 only see blocks the
   device took completely, so `done = |fed|`; the device content `acc` additionally holds the part of a block a short
   write left behind.  The callers acknowledge the block and advance the sequence counter in every case.
-* Each in-band job has an inactivity timer (repo commit afd7dc9, 120 s), running while the job is in `TransferState`
+* Each in-band job has an inactivity timer (repo commit 72eab57, 120 s), running while the job is in `TransferState`
   and restarted on every progress: when it fires the job ends with `ProtocolError`.  Modelled as the explicit op
   `timeout` ("the interval elapses with nothing happening"): every job in `TransferState` gives up.  A job in
   `StartState` (the `<open/>` or its answer got lost) has no timer and still waits for ever.
@@ -128,7 +128,7 @@ def Recv.terminate (r : Recv) (cause : JError) : Recv :=
                 finishedSignals := r.finishedSignals + 1,
                 errorSignals := r.errorSignals + (if cause = .none then 0 else 1) }
 
-/-- `QXmppTransferIncomingJob::writeData` (since repo commit 705738b): one `write()`, no retry.  If the device took the
+/-- `QXmppTransferIncomingJob::writeData` (since repo commit 675e9c1): one `write()`, no retry.  If the device took the
 whole block, the byte counter `done` and the running hash advance by the block (`fed`; `done = |fed|`).  If the write
 failed or was short, whatever the device took stays in it, neither counter nor hash move, and the job ends with
 `FileAccessError` (the callers still acknowledge the block and advance the sequence counter). -/
